@@ -90,6 +90,15 @@ theorem mutant_witness :
 /-- The table extracted from the current source tree is complete. -/
 theorem table_complete : Generated.collectTable.complete = true := by decide +kernel
 
+/-- Lower bounds on the extracted table (a translator that silently drops rows cannot make
+`table_complete` / `untraced_static_ok` vacuous): at least 50 impls, 30 of which trace a parameter,
+at least one crate-internal pointer-holding type, and both exported macros' arms. -/
+theorem required_collect_rows :
+    Generated.collectTable.entries.length ≥ 50 ∧
+    (Generated.collectTable.entries.filter (fun e => !e.traced.isEmpty)).length ≥ 30 ∧
+    (Generated.collectTable.entries.filter (fun e => !e.ptrFields.isEmpty)).length ≥ 1 ∧
+    Generated.collectTable.unclassified = [] ∧ Generated.macroImpls.length ≥ 2 := by decide +kernel
+
 /-- Hence the current impls are exact. -/
 theorem current_exact (ty : Ty) (v : Val) (h : HasType Generated.collectTable v ty) :
     traceProvided Generated.collectTable ty v = ptrsOf v ∧
@@ -131,7 +140,37 @@ theorem dyn_collect_templates_ok :
       (fun t => t.ok && t.trace == .forwardsDyn && t.needsTraceValue == some true) = true ∧
     Generated.macroImpls.all MacroImpls.Template.ok = true := by decide
 
-/-- What the rule buys: a generated impl that is usable at a generative brand for a type mentioning
+/-- **Client instantiations are covered by `exact`.**  Extend the crate's impl table by the impls
+clients obtain from any arms of the exported macros in the current source (`Template.toEntry`: any
+number of declared parameters, the user-supplied type mentioning the brand or not; any number of
+instantiations): the extended table is still complete, so for every type shape built from provided
+impls **and** macro-generated ones, `Trace::trace` reports exactly the contained pointers, and a type
+whose `NEEDS_TRACE` is `false` contains none. -/
+theorem template_instances_exact (is : List (MacroImpls.Template × MacroImpls.Inst))
+    (hmem : ∀ p, p ∈ is → p.1 ∈ Generated.macroImpls) (ty : Ty) (v : Val)
+    (h : HasType (MacroImpls.withInstances Generated.collectTable is) v ty) :
+    traceProvided (MacroImpls.withInstances Generated.collectTable is) ty v = ptrsOf v ∧
+      (needsTrace (MacroImpls.withInstances Generated.collectTable is) ty = false → ptrsOf v = []) :=
+  exact _ (MacroImpls.withInstances_complete _ table_complete _ dyn_collect_templates_ok.2.2.2 is hmem) ty v h
+
+/-- Non-vacuity of `template_instances_exact` on the generated rows 0 (`static_collect!` generic arm)
+and 2 (`dyn_collect!` generic arm): both instantiate to complete rows at a brand-mentioning type with
+one parameter; the `dyn` row traces its parameter position, the `static` row demands `'static`. -/
+example :
+    (Generated.macroImpls[0]?.map (fun t => (t.toEntry { brandFree := false, nparams := 1 }).complete)) = some true ∧
+    (Generated.macroImpls[2]?.map (fun t => (t.toEntry { brandFree := false, nparams := 1 }).traced)) = some [0] ∧
+    (Generated.macroImpls[2]?.map (fun t => (t.toEntry { brandFree := false, nparams := 1 }).ptrFields)) = some ["'gc"] ∧
+    (Generated.macroImpls[0]?.map (fun t => (t.toEntry { brandFree := false, nparams := 1 }).selfStatic)) = some true := by
+  decide
+
+/-- The `Example` rows of the mutant-witness theorems are the generated rows (so the witnesses are
+about the crate's templates, not about hand-written look-alikes). -/
+example : Generated.macroImpls[0]? = some MacroImpls.Example.staticCollectArm0 ∧
+    Generated.macroImpls[2]? = some MacroImpls.Example.dynCollectArm0 := by decide
+
+/-- *Definitional reading of the rule* (re-reads conjuncts of `Template.ok`; kept for the name — the
+semantic statement is `template_instances_exact`).
+What the rule buys: a generated impl that is usable at a generative brand for a type mentioning
 the brand reports through the value's own `trace` and has `NEEDS_TRACE = true`. -/
 theorem template_impl_traces (t : MacroImpls.Template) (h : t.ok = true) (i : MacroImpls.Inst)
     (hb : i.brandFree = false) (hg : t.brandGeneric i = true) :
@@ -145,7 +184,10 @@ theorem template_impl_traces (t : MacroImpls.Template) (h : t.ok = true) (i : Ma
 theorem dyn_collect_mutant_witness :
     MacroImpls.Example.dynCollectArm0.ok = true ∧
     MacroImpls.Example.dynCollectArm0Mutant.ok = false ∧
-    MacroImpls.Example.dynCollectArm0Mutant.needsTraceValue = some false := by decide
+    MacroImpls.Example.dynCollectArm0Mutant.needsTraceValue = some false ∧
+    (MacroImpls.Example.dynCollectArm0Mutant.toEntry { brandFree := false, nparams := 1 }).complete = false ∧
+    (MacroImpls.Example.dynCollectArm0Mutant.toEntry { brandFree := false, nparams := 0 }).complete = false := by
+  decide
 
 /-! ## The clause, over the type-shape model
 
